@@ -376,8 +376,14 @@ package parse
 //@ pred rem(t *tree) = ite(cursor(t) >= ntoks(t.lex), 0, ntoks(t.lex) - cursor(t))
 //@ pred tok1ok(t *tree) = tokAt(t.token[1], t.lex.recv - 2, t.lex)
 //@ pred afterNext(t *tree) = t.peekCount <= 1 && (t.peekCount == 1 ==> tok1ok(t)) && t.lex.recv >= t.peekCount + 1
-//@ pred treeOK(t *tree) = t.lex != nil && 0 <= t.peekCount && t.peekCount <= 2 && t.peekCount <= t.lex.recv && 0 <= t.lex.recv && (t.lex.recv >= 1 ==> tokAt(t.token[0], t.lex.recv - 1, t.lex)) && (t.peekCount == 2 ==> tok1ok(t)) && (t.lex.recv >= ntoks(t.lex) ==> t.lex.done) && 0 <= t.token[0].pos && t.token[0].pos <= len(t.lex.input) && 0 <= t.token[1].pos && t.token[1].pos <= len(t.lex.input) && (t.fileLex != nil ==> 0 <= t.filePos && t.filePos <= len(t.fileLex.input))
-//@ pred stepOK(t *tree) = treeOK(t) && cursor(t) >= old(cursor(t)) && t.lex == old(t.lex) && (old(t.lex.done) ==> t.lex.done) && t.aliases == old(t.aliases)
+//@ pred treeOK0(t *tree) = t.lex != nil && 0 <= t.peekCount && t.peekCount <= 2 && t.peekCount <= t.lex.recv && 0 <= t.lex.recv && (t.lex.recv >= 1 ==> tokAt(t.token[0], t.lex.recv - 1, t.lex)) && (t.peekCount == 2 ==> tok1ok(t)) && (t.lex.recv >= ntoks(t.lex) ==> t.lex.done) && 0 <= t.token[0].pos && t.token[0].pos <= len(t.lex.input) && 0 <= t.token[1].pos && t.token[1].pos <= len(t.lex.input) && (t.fileLex != nil ==> 0 <= t.filePos && t.filePos <= len(t.fileLex.input))
+// Nesting: t.depth counts the levels of itemList / parseExpr (and the length of
+// operator chains) the parser is in; it never exceeds maxDepth (deeper() makes
+// anything beyond an error) and every parser function leaves it as it found
+// it. stackbound (below) turns this into a bound on the depth of the recursion.
+//@ pred treeOK(t *tree) = treeOK0(t) && 0 <= t.depth && t.depth <= 10000
+//@ pred stepOK0(t *tree) = treeOK(t) && cursor(t) >= old(cursor(t)) && t.lex == old(t.lex) && (old(t.lex.done) ==> t.lex.done) && t.aliases == old(t.aliases)
+//@ pred stepOK(t *tree) = stepOK0(t) && t.depth == old(t.depth)
 
 //@ func (*tree).next
 //@   props C05 C18
@@ -439,18 +445,24 @@ package parse
 //@   at call panic#0 assert[raises-that-error;C19] arg0 == ev
 //@ func (*tree).errorf
 //@   props C05 C19
-//@   requires treeOK(t)
+//@   requires treeOK0(t)
 //@   noreturn
 //@   at call (*tree).errorfAt#0 assert[position-of-a-token-already-read;C19] t.lex.recv == old(t.lex.recv) && arg1 == ite(old(t.peekCount) > 0, old(t.token[t.peekCount-1].pos), old(t.token[0].pos))
 //@ func (*tree).unexpected
 //@   props C05 C19
-//@   requires treeOK(t) && 0 <= token.pos && token.pos <= len(t.lex.input)
+//@   requires treeOK0(t) && 0 <= token.pos && token.pos <= len(t.lex.input)
 //@   noreturn
 //@   at call (*tree).errorfAt#* assert[position-of-offending-token;C19] arg1 == token.pos
 //@ func (*tree).error
 //@   props C05
-//@   requires treeOK(t)
+//@   requires treeOK0(t)
 //@   noreturn
+
+//@ func (*tree).deeper
+//@   props C05 C18 C19
+//@   requires treeOK(t)
+//@   modifies t.depth
+//@   ensures[one-level-deeper-and-within-the-limit;C05] t.depth == old(t.depth) + 1 && t.depth <= 10000
 
 //@ func (*tree).expect
 //@   props C05 C18
@@ -471,7 +483,7 @@ package parse
 //@   params t
 //@   props C05 C18 C19
 //@   requires treeOK(t)
-//@   modifies t.peekCount, t.token, t.lex.recv, t.lex.done
+//@   modifies t.peekCount, t.token, t.lex.recv, t.lex.done, t.depth
 //@   ensures[step] stepOK(t)
 //@ functype parserFn
 //@   params t
@@ -510,14 +522,19 @@ package parse
 //@ func (*tree).parseExpr
 //@   like exprFn
 //@   measure rem(t), 2
+//@   stackbound 10000 - t.depth, 0
 //@   ensures result != nil
+//@   ghost ops int = 0
+//@   at call parse.newBinaryOpNode#0 after set ops = ops + 1
 //@   loop 0
-//@     invariant stepOK(t) && n != nil
+//@     invariant stepOK0(t) && n != nil && depth == old(t.depth)
+//@     invariant[every-operator-of-a-chain-counts-as-a-level;C05,C06] ops >= 0 && t.depth == old(t.depth) + 1 + ops
 //@     decreases ntoks(t.lex) - cursor(t)
 
 //@ func (*tree).parseExprFirstTerm
 //@   like exprFn
 //@   measure rem(t), 1
+//@   stackbound 10000 - t.depth, 4
 //@   ensures result != nil
 
 // C01: `c ? a : b` is complete after its else-arm; a colon that follows belongs
@@ -526,6 +543,7 @@ package parse
 //@ func (*tree).parseTernary
 //@   like exprFn
 //@   measure rem(t), 3
+//@   stackbound 10000 - t.depth, 1
 //@   at call (*tree).parseTernary#* forbid[a-colon-after-the-else-arm-belongs-to-the-enclosing-ternary;C01] false
 //@   requires cond != nil
 //@   ensures result != nil
@@ -538,6 +556,7 @@ package parse
 //@   props C05 C18 C01
 //@   at call strconv.ParseInt#0 assert[hex-literal-converted-from-its-digits;C01] (arg1 == 16 ==> substr(arg0, tok.val, 2) && len(arg0) == len(tok.val) - 2) && (arg1 == 10 ==> arg0 == tok.val) && (arg1 == 10 || arg1 == 16)
 //@   measure rem(t), 4
+//@   stackbound 10000 - t.depth, 3
 //@   nopanic
 //@   requires tokShape(tok) && (tok.typ == itemNull || tok.typ == itemBool || tok.typ == itemInteger || tok.typ == itemFloat || tok.typ == itemDollarIdent || tok.typ == itemString || tok.typ == itemIdent || tok.typ == itemLeftBracket)
 //@   ensures result != nil
@@ -549,6 +568,7 @@ package parse
 //@ func (*tree).parseDataRef
 //@   like exprFn
 //@   measure rem(t), 1
+//@   stackbound 10000 - t.depth, 1
 //@   requires len(tok.val) >= 1
 //@   ghost gk itemType = 0
 //@   ghost gv string = ""
@@ -570,11 +590,13 @@ package parse
 //@ func (*tree).parseListOrMap
 //@   like exprFn
 //@   measure rem(t), 3
+//@   stackbound 10000 - t.depth, 2
 //@   ensures result != nil
 
 //@ func (*tree).parseListLiteral
 //@   like exprFn
 //@   measure rem(t), 3
+//@   stackbound 10000 - t.depth, 1
 //@   ensures result != nil
 //@   at call (*tree).next#1 assert[after-a-trailing-comma-the-closing-bracket-is-what-is-consumed;C01] t.peekCount >= 1 && t.token[t.peekCount-1].typ == itemRightBracket
 //@   loop 0
@@ -584,6 +606,7 @@ package parse
 //@ func (*tree).parseMapLiteral
 //@   like exprFn
 //@   measure rem(t), 3
+//@   stackbound 10000 - t.depth, 1
 //@   ensures result != nil
 //@   at call (*tree).next#1 assert[after-a-trailing-comma-the-closing-bracket-is-what-is-consumed;C01] t.peekCount >= 1 && t.token[t.peekCount-1].typ == itemRightBracket
 //@   loop 0
@@ -606,6 +629,7 @@ package parse
 //@ func (*tree).newFunctionNode
 //@   like exprFn
 //@   measure rem(t), 3
+//@   stackbound 10000 - t.depth, 1
 //@   ensures result != nil
 //@   loop 0
 //@     invariant stepOK(t) && node != nil && fresh(node) && fresh(node.Args)
@@ -671,15 +695,17 @@ package parse
 //@ func (*tree).itemList
 //@   like parserFn
 //@   measure rem(t), 7
+//@   stackbound 10000 - t.depth, 0
 //@   ensures result != nil && afterNext(t) && cursor(t) >= old(cursor(t)) + 1
 //@   ensures[terminal-seen;C18] old(len(until) == 1 && until[0] == itemEOF) ==> t.lex.done
 //@   loop 0
-//@     invariant stepOK(t) && t.aliases != nil
+//@     invariant stepOK0(t) && t.aliases != nil && t.depth == old(t.depth) + 1
 //@     decreases ntoks(t.lex) - cursor(t)
 
 //@ func (*tree).textOrTag
 //@   like parserFn
 //@   measure rem(t), 6
+//@   stackbound 10000 - t.depth, 5
 //@   requires afterNext(t) && tokAt(token, cursor(t) - 1, t.lex)
 //@   ensures !halt ==> old(token.typ) != itemInvalid
 //@   ensures halt ==> afterNext(t)
@@ -698,6 +724,7 @@ package parse
 //@ func (*tree).beginTag
 //@   like parserFn
 //@   measure rem(t), 5
+//@   stackbound 10000 - t.depth, 4
 //@   at call (*tree).unexpected#0 assert[first-of-expression-accepted;C01] !firstOfExpr(arg1.typ)
 //@   at call (*tree).next#1 assert[a-literal's-text-is-taken-only-when-there-is-some;C15] t.peekCount >= 1 && t.token[t.peekCount-1].typ == itemText
 
@@ -721,6 +748,7 @@ package parse
 //@ func (*tree).parseLet
 //@   like parserFn
 //@   measure rem(t), 4
+//@   stackbound 10000 - t.depth, 1
 
 //@ func (*tree).parseCss
 //@   like parserFn
@@ -733,6 +761,7 @@ package parse
 //@ func (*tree).parseCall
 //@   like parserFn
 //@   measure rem(t), 4
+//@   stackbound 10000 - t.depth, 2
 //@   at call strings.Index#0 assert[alias-is-what-precedes-the-first-dot;C02] same(arg0, templateName) && arg1 == "."
 //@   at call strings.LastIndex#* forbid[alias-is-what-precedes-the-first-dot;C02] false
 //@   loop 0
@@ -742,6 +771,7 @@ package parse
 //@ func (*tree).parseCallParams
 //@   like parserFn
 //@   measure rem(t), 4
+//@   stackbound 10000 - t.depth, 1
 //@   loop 0
 //@     invariant stepOK(t) && t.aliases != nil
 //@     decreases ntoks(t.lex) - cursor(t)
@@ -752,6 +782,7 @@ package parse
 //@ func (*tree).parseSwitch
 //@   like parserFn
 //@   measure rem(t), 5
+//@   stackbound 10000 - t.depth, 2
 //@   ensures typeis(result, *ast.SwitchNode)
 //@   loop 0
 //@     invariant stepOK(t) && t.aliases != nil && fresh(cases)
@@ -760,6 +791,7 @@ package parse
 //@ func (*tree).parseCase
 //@   like parserFn
 //@   measure rem(t), 4
+//@   stackbound 10000 - t.depth, 1
 //@   ensures result != nil
 //@   loop 0
 //@     invariant stepOK(t) && t.aliases != nil
@@ -768,10 +800,12 @@ package parse
 //@ func (*tree).parseFor
 //@   like parserFn
 //@   measure rem(t), 4
+//@   stackbound 10000 - t.depth, 1
 
 //@ func (*tree).parseIf
 //@   like parserFn
 //@   measure rem(t), 4
+//@   stackbound 10000 - t.depth, 1
 //@   loop 0
 //@     invariant stepOK(t) && t.aliases != nil && fresh(conds)
 //@     decreases ntoks(t.lex) - cursor(t)
@@ -814,6 +848,7 @@ package parse
 //@ func (*tree).parseTemplate
 //@   like parserFn
 //@   measure rem(t), 4
+//@   stackbound 10000 - t.depth, 1
 
 //@ func (*tree).parseHeaderParam
 //@   like parserFn
@@ -822,12 +857,14 @@ package parse
 //@ func (*tree).parseMsg
 //@   like parserFn
 //@   measure rem(t), 4
+//@   stackbound 10000 - t.depth, 2
 //@   loop 0
 //@     noterm
 
 //@ func (*tree).parsePlural
 //@   like parserFn
 //@   measure rem(t), 6
+//@   stackbound 10000 - t.depth, 3
 //@   requires 0 <= tok.pos && tok.pos <= len(t.lex.input)
 //@   nosafety
 //@   loop 0
@@ -851,6 +888,7 @@ package parse
 
 //@ func (*tree).placeholderize
 //@   props C05
+//@   note stackbound: recurses over the plural cases of the message node it was given, a tree the parser built within the nesting limit (its height is not a quantity a contract here can name)
 //@   pure
 //@   nosafety
 //@   ensures result != nil
